@@ -61,7 +61,7 @@ CHECKS = {
          "Exploration: ~720k (quick) transcribed cases compared pairwise; primitives: eq/le/gt/splat/loadu/storeu/mask ops/bitmask for all 256 byte values in every lane of u8x16/u8x32/u8x64, i8x32, BitMask methods of u16/u32/u64 for all single bits, boundaries and random masks.",
          "Trusted: FNV-1a digests (a collision would hide a difference); the private helpers (prefix_xor, get_nonspace_bits, simd_str2int) are not callable and are covered only through the transcripts."),
  "C18": ("runtime monitors: (1) Miri (Tree Borrows, data-race detector, leak check, its own preemption and weak-CAS failure injection, 16 seeds x 4 rate settings); (2) turn-based scheduler behind the verif_hooks yield points serialising 2-3 readers at every atomic operation of the lazy caches according to seeded schedule vectors (with weak-CAS failure injection), result oracle + allocation ledger per run, distinct observed event sequences counted; (3) free-running barrier stress under ASan/LSan and TSan",
-         "Exploration: 7 scenarios x 6400 schedule vectors (quick), ~12.9k distinct event sequences observed; not an exhaustive DFS - the claim is the measured set.",
+         "Exploration: 7 scenarios; a stateless depth-first search by replay enumerates every schedule at the granularity of the hooked atomic operations (6 of the 7 scenarios are exhausted within the quick budget of 20k schedules each, the seventh within the thorough budget or reported as budget-reached in the evidence notes), plus 6400 random schedule vectors per scenario, 16 Miri seeds and free-running stress. The claim is the measured set recorded in the evidence, not a proof over all interleavings of the machine-level atomics.",
          "Trusted: Miri, TSan/ASan runtimes, hook H1. The scheduler serialises threads, so it explores interleavings at the granularity of the hooked atomic operations only."),
  "C02": ("differential runtime monitor: independent RFC 8259 recogniser as accept/reject oracle over enumerated token sequences and mutated documents; ASan build",
          "Exploration: every listed entry point x carrier is executed on all token sequences up to the bound and on seeded generated/mutated documents; an independent recogniser decides what must be accepted. Held on the cases observed, not a proof over all byte strings.",
